@@ -496,7 +496,7 @@ def gen_params(script, rng):
 
 def cases_for(tier, seed):
     rng = random.Random(core.h64(seed, "c22-cases"))
-    quota = {"W1": 60, "W2": 40, "W3": 10, "W4": 16, "W5": 10} if tier == "quick" else \
+    quota = {"W1": 90, "W2": 70, "W3": 15, "W4": 24, "W5": 16} if tier == "quick" else \
             {"W1": 1500, "W2": 1500, "W3": 150, "W4": 400, "W5": 300}
     nsched = 2 if tier == "quick" else 5
     cases = []
